@@ -253,8 +253,9 @@ def r5(cx, rec):
         n += 1
         # peel error plumbing only: try(..), Result::or / map_err / ok_or(.., Err{..})
         while True:
-            if x[0] == 'try':
-                x = x[1]
+            y = mirq.peel_ok(x)
+            if y is not x:
+                x = y
             elif x[0] == 'call' and x[4].get('name') in ('or', 'map_err', 'or_else') and x[2]:
                 x = x[2][0]
             else:
